@@ -59,6 +59,7 @@ type Style interface {
 	Underscore() bool         // write `_` before a symbol that does not need it
 	Zeros() int               // leading zeros on a duration number
 	UnicodeAcc() bool         // write ♯ / ♭ instead of # / b
+	EOFComment() string       // a comment without final newline at the very end of the text ("" = none)
 }
 
 type canonStyle struct{}
@@ -67,6 +68,7 @@ func (canonStyle) Trivia(string) string { return "" }
 func (canonStyle) Underscore() bool     { return false }
 func (canonStyle) Zeros() int           { return 0 }
 func (canonStyle) UnicodeAcc() bool     { return false }
+func (canonStyle) EOFComment() string   { return "" }
 
 // rapidStyle draws every choice from rapid, so that renderings shrink and replay.
 type rapidStyle struct {
@@ -119,6 +121,18 @@ func (s *rapidStyle) Zeros() int {
 	}
 	return n
 }
+func (s *rapidStyle) EOFComment() string {
+	if !s.trivia {
+		return ""
+	}
+	x := rapid.SampledFrom([]string{"", "", "", "", ";", "; last line, no newline", " ;x\ty"}).Draw(s.t, "eof-comment")
+	if x != "" {
+		s.nEdits["comment"]++
+		s.nEdits["trivia"]++
+	}
+	return x
+}
+
 func (s *rapidStyle) UnicodeAcc() bool {
 	if !s.uni {
 		return false
@@ -196,6 +210,7 @@ func Render(items []SItem, st Style) string {
 		}
 	}
 	sb.WriteString(st.Trivia("norm"))
+	sb.WriteString(st.EOFComment())
 	return sb.String()
 }
 
